@@ -89,6 +89,18 @@ def case_of_case(t):
             return case_of_case(_on_option(a[0], lambda x: x, a[1]))
         if n == "Option::unwrap_or_else" and len(a) == 2 and lit_opt and isinstance(a[1], tuple) and a[1][:1] == ("closure",) and not a[1][1]:
             return case_of_case(_on_option(a[0], lambda x: x, a[1][2]))
+        lit_res = bool(a) and isinstance(a[0], tuple) and a[0][:2] in (("ctor", "Result::Ok"), ("ctor", "Result::Err"))
+        if lit_res and n in ("Result::map", "Result::and_then", "Result::map_err", "Result::or_else") and len(a) == 2:
+            ok_side = a[0][1] == "Result::Ok"
+            inner = dict(a[0][2]).get("0")
+            if n == "Result::map":
+                return case_of_case(("ctor", "Result::Ok", (("0", _app(a[1], inner)),))) if ok_side else a[0]
+            if n == "Result::and_then":
+                return case_of_case(_app(a[1], inner)) if ok_side else a[0]
+            if n == "Result::map_err":
+                return a[0] if ok_side else case_of_case(("ctor", "Result::Err", (("0", _app(a[1], inner)),)))
+            if n == "Result::or_else":
+                return a[0] if ok_side else case_of_case(_app(a[1], inner))
         if n == "Option::is_some" and len(a) == 1 and _is_cond(a[0]):
             return case_of_case(_on_option(a[0], lambda x: ("lit", True), ("lit", False)))
         if n == "Option::is_none" and len(a) == 1 and _is_cond(a[0]):
